@@ -70,6 +70,49 @@ def run_trace(job):
     return rec
 
 
+def run_closing(job):
+    """disable() while a Select.req and a data message behind it are still in the receive path."""
+    cid, seed, policy, gap = job
+    hsmsrun.quiet_logging()
+    simrt.install()
+    from .. import link as lk
+    rec = {"id": cid, "seed": seed, "policy": policy, "gap": gap, "sel": "none", "comm": False, "data": "none", "final": "?"}
+
+    def main(s):
+        ep = hsmsrun.Ep(mode="passive", kind="protocol")
+        ep.protocol.enable()
+        ep.link.connect()
+        s.settle()
+        ev0 = len(ep.events)
+        ep.link.feed(lk.hsms_frame(stype=1, system=0x7001) + lk.hsms_frame(stype=0, system=0x7002, session=0, stream=1, function=1, wbit=True))
+        for _ in range(gap):
+            s.yield_point()
+        fin = {"v": False}
+
+        def dis():
+            ep.protocol.disable()
+            fin["v"] = True
+
+        simrt.Thread(target=dis, name="app_disable").start()
+        ok, why = s.run_until(lambda: fin["v"], max_dt=30)
+        if not ok:
+            rec["final"] = "disable-did-not-return"
+            return
+        s.settle()
+        answers = [f for f in ep.link.take_frames() if f.get("system") == 0x7001]
+        kinds = {"rsp" if f["stype"] == 2 else "reject" if f["stype"] == 7 else "other" for f in answers}
+        rec["sel"] = "both" if len(answers) > 1 else (kinds.pop() if kinds else "none")
+        rec["comm"] = "communicating" in ep.events[ev0:]
+        rec["data"] = "delivered" if any(d["system"] == 0x7002 for d in ep.delivered) else "none"
+        rec["final"] = ep.cs
+
+    s = simrt.run(main, seed=seed, policy=policy, switch_prob=0.4, max_vtime=1e6, pct_depth=3, pct_horizon=200)
+    rec["outcome"] = s.outcome
+    if s.errors:
+        rec["errors"] = [e[:2] for e in s.errors[:2]]
+    return rec
+
+
 def exec_inflight(s, ep, inp_connect, nxt):
     """Connect with `nxt` already buffered. Observation is split so that the monitor can fold it:
     step 1 (Connect) gets the events/frames the monitor attributes to Connect, step 2 the rest."""
@@ -207,6 +250,31 @@ def run(ctx: Ctx):
                     "what": f"E37 monitor clause '{v['clause']}' fails at step {v['at']} ({json.dumps(st['inp'])}) "
                             f"in state {sig['state_before']} ({t['mode']})"})
         ctx.violation(rec)
+    # ---- the closing window (disable() racing a Select.req + data message), judged by E37Closing
+    cjobs = []
+    for i in range(1, (120 if ctx.quick else 1200) + 1):
+        cjobs.append((i, rng.randrange(1 << 30), ["random", "pct", "fifo", "random"][i % 4], rng.choice([0, 0, 1, 2, 3, 5, 8, 13, 21, 34, 55])))
+    crecs = pmap(run_closing, cjobs)
+    for r_ in crecs:
+        if r_["outcome"] != "done" or r_.get("errors"):
+            ctx.violation({"check": "closing-window", "clause": "run-did-not-finish", "what": f"closing-window run ended {r_['outcome']} {r_.get('errors')}",
+                           "sched": [r_["seed"], r_["policy"], r_["gap"]]})
+    crecs = [r_ for r_ in crecs if r_["outcome"] == "done" and not r_.get("errors")]
+    fc = wd / "closing.json"
+    fc.write_text(json.dumps([{k: r_[k] for k in ("id", "sel", "comm", "data", "final")} for r_ in crecs]))
+    rc_ = tlc.run("E37Closing", cfg_text="", workdir=wd, workers=1, env={"TRACE_FILE": str(fc)}, what="closing", coverage=False, timeout=900)
+    tlc.require_ok(rc_, "E37Closing")
+    cv = {v["id"]: v["clause"] for v in rc_.tagged("V")}
+    if len(cv) != len(crecs):
+        raise Machinery(f"E37Closing: {len(cv)} verdicts for {len(crecs)} runs")
+    for r_ in crecs:
+        if cv[r_["id"]] != "ok":
+            ctx.violation({"check": "closing-window", "clause": cv[r_["id"]], "observed": {k: r_[k] for k in ("sel", "comm", "data", "final")},
+                           "sched": [r_["seed"], r_["policy"], r_["gap"]],
+                           "what": f"disable() racing a Select.req + data message ({r_['policy']}, gap {r_['gap']}): {cv[r_['id']]}; "
+                                   f"answer {r_['sel']}, communicating reported {r_['comm']}, data {r_['data']}, final {r_['final']}"})
+    ctx.traces += len(crecs)
+    ctx.extra["closing_window_runs"] = {k: sum(1 for r_ in crecs if r_["sel"] == k) for k in ("rsp", "reject", "none", "both")}
     # ---- Leg T: thread-level model HsmsEndpoint + trace validation of recorded executions
     from . import c05_trace
     c05_trace.check(ctx, wd, pmap)
